@@ -43,6 +43,10 @@ type c15Write struct {
 
 var c15MvApps = map[string]risc.Application{}
 
+// c15InfoNotYoungest counts tagged reads that returned an eligible but not the youngest eligible value
+// (reported as information; the statement only forbids values written by younger instructions).
+var c15InfoNotYoungest int64
+
 func c15Mv(reg string) risc.InstructionRunner {
 	app, ok := c15MvApps[reg]
 	if !ok {
@@ -145,6 +149,16 @@ func c15Run(rat bool, ops []c15Op) (msg string) {
 					return fmt.Sprintf("op %d %s returned %d, the youngest value is %d", i, o, got, want)
 				}
 			} else if countFor(o.Reg) <= slots {
+				// information only (not required by the statement): the youngest eligible write
+				exact := committed[o.Reg]
+				for _, w := range pend {
+					if w.reg == o.Reg && w.tag <= o.Tag {
+						exact = w.val
+					}
+				}
+				if got != exact {
+					c15InfoNotYoungest++
+				}
 				// tagged read: never a value written by a younger instruction
 				ok := got == committed[o.Reg]
 				for _, w := range pend {
@@ -315,7 +329,8 @@ func c15Alphabet(nregs int, withTagged bool) []c15Op {
 		}
 	}
 	a = append(a, c15Op{K: 'c'})
-	for _, t := range []int32{9, 13, 21} {
+	// rollback targets: equal to a write's tag (the write itself is not older than s) and in between
+	for _, t := range []int32{8, 12, 13, 21} {
 		a = append(a, c15Op{K: 'b', Tag: t})
 	}
 	return a
@@ -355,7 +370,7 @@ func (p propC15) NumCases(tier string) int {
 	return n + 48
 }
 func (propC15) Rule() string {
-	return "scripted histories on the public Context API of both mechanisms (TransactionWriteRegister/Commit/Rollback and InitRAT/TransactionRATWrite/RATCommit/RATRollback/RATFlush, reads through 'mv a7, r' executed plainly or with a sequence id) and on comp.RAT directly (ring lengths 2 and 3 exhaustively, 2..10 randomly). Exhaustive part: every history up to length 5 (quick) / 6 (thorough) over {write(reg, tag) for 2 registers x 4 tags in any order, plain read, tagged read (3 tags, ring only), commit, rollback(3 tags)}. Random part: histories of length 200 over 3 registers with seeded tags. Oracle exactly as the statement: commit -> youngest write; rollback(s) -> youngest write with tag < s, unchanged if none; a tagged read never returns a value with a younger tag; these are required while the uncommitted writes of the register fit the slots (1 map, 10 ring, n raw ring), beyond that only commit and plain reads are checked. 'Youngest' = most recent in the history among the eligible writes. distinct_nontrivial = distinct histories executed."
+	return "scripted histories on the public Context API of both mechanisms (TransactionWriteRegister/Commit/Rollback and InitRAT/TransactionRATWrite/RATCommit/RATRollback/RATFlush, reads through 'mv a7, r' executed plainly or with a sequence id) and on comp.RAT directly (ring lengths 2 and 3 exhaustively, 2..10 randomly). Exhaustive part: every history up to length 5 (quick) / 6 (thorough) over {write(reg, tag) for 2 registers x 4 tags in any order, plain read, tagged read (3 tags, ring only), commit, rollback(4 tags, two of them equal to a write's tag)}. Random part: histories of length 200 over 3 registers with seeded tags. Oracle exactly as the statement: commit -> youngest write; rollback(s) -> youngest write with tag < s, unchanged if none; a tagged read never returns a value with a younger tag; these are required while the uncommitted writes of the register fit the slots (1 map, 10 ring, n raw ring), beyond that only commit and plain reads are checked. 'Youngest' = most recent in the history among the eligible writes. distinct_nontrivial = distinct histories executed."
 }
 func (propC15) Assumptions() []string {
 	return []string{"'youngest write' is read as the most recent write in the history among the eligible ones (coincides with the largest tag whenever writes arrive in program order)", "the transaction map is read plainly only (its single user never passes a sequence id)"}
@@ -402,8 +417,12 @@ func decodeC15(s string) []c15Op {
 	return ops
 }
 
-func (p propC15) RunCase(tier string, seed int64, idx int) caseResult {
-	res := caseResult{Stats: map[string]int64{}}
+func (p propC15) RunCase(tier string, seed int64, idx int) (res caseResult) {
+	res = caseResult{Stats: map[string]int64{}}
+	info0 := c15InfoNotYoungest
+	defer func() {
+		res.Stats["info:tagged-reads-not-returning-the-youngest-eligible-write"] += c15InfoNotYoungest - info0
+	}()
 	off := 0
 	report := func(mech string, ops []c15Op, msg string) {
 		if len(res.Findings) < 2 {
@@ -490,7 +509,7 @@ func c15Random(r *rand.Rand, n int) []c15Op {
 		case 8:
 			ops = append(ops, c15Op{K: 'c'})
 		default:
-			ops = append(ops, c15Op{K: 'b', Tag: tag - int32(4*r.Intn(8)) + 1})
+			ops = append(ops, c15Op{K: 'b', Tag: tag - int32(4*r.Intn(8)) + int32(r.Intn(2))})
 		}
 	}
 	return ops
